@@ -30,6 +30,9 @@ func (d *DA) Place(height uint64, blobs ...[]byte) {
 }
 
 func (d *DA) SubmitWithOptions(ctx context.Context, blobs []coreda.Blob, _ float64, _ []byte, _ []byte) ([]coreda.ID, error) {
+	if f := d.OnSubmit; f != nil {
+		f()
+	}
 	d.mu.Lock()
 	defer d.mu.Unlock()
 	ans := "ok"
